@@ -198,7 +198,12 @@ func Discharge(em *Emitter, obls []*Obligation, dir string, timeout int, workers
 			}
 			file := filepath.Join(dir, fmt.Sprintf("vc_%05d.smt2", i))
 			os.WriteFile(file, []byte(script), 0o644)
-			r := Solve(file, timeout, true)
+			var r solveOut
+			if o.Kind == "cover" {
+				r = runSolver(context.Background(), solvers[0], file, min(3, timeout))
+			} else {
+				r = Solve(file, timeout, true)
+			}
 			o.Solver, o.Time = r.solver, r.dur
 			switch {
 			case o.Kind == "cover":
